@@ -20,7 +20,24 @@ LAYOUT_RULE = ("each evaluation is one simulated world: 1-2 cola::ConstrainedFDL
 TOPO_RULE = ("each evaluation is one simulated world: 1-2 topology-preserving layout sessions (3-10 non-overlapping nodes, tree plus extra edges, initial routes computed by a libavoid "
              "polyline router inside the session) whose invariant is evaluated inside every iteration while a simulated user drags a node (lock at a random pre-iteration call, released later), "
              "resizes a node mid-run and may stop at any iteration; non-trivial = a reach probe fired; distinct = distinct event-log hash")
+DIALECT_RULE = ("each evaluation is one simulated world: graph sessions building a dialect::Graph from generated TGLF and running a one-shot pipeline (doHOLA; peel + symmetric tree layout; connected components; "
+                "leafless orthogonal routing + planarisation), as the N-th graph of the process (id counters shifted by earlier sessions and by a generated offset), on a seeded heap whose placement policy decides the "
+                "order of the pointer-ordered sets, interleaved with other sessions; non-trivial = a reach probe fired; distinct = distinct event-log hash")
 PROPS = {
+    "C14": dict(build="plain", runs_quick=3000, budget_quick=50, runs_thorough=100000, budget_thorough=1200, rule=DIALECT_RULE, timeout_quick=60,
+                level_text="seeded search; most of this property's quantifier (all connected graphs, options) is workload sampling -- the simulation contributes the heap-order, id-offset and interleaving dimensions only (weak claim)",
+                assumptions=["connected graphs of 3-14 nodes (thorough: up to 40), trees / cycles / trees with extra edges / hubs", "route ends may lie up to nodePaddingScalar x IEL outside the node box (documented padding)",
+                             "a std::runtime_error from doHOLA (no feasible expansion) is a refusal, counted but not judged"]),
+    "C19": dict(build="plain", runs_quick=20000, budget_quick=45, runs_thorough=400000, budget_thorough=900, rule=DIALECT_RULE,
+                level_text="seeded search; the decompositions are close to pure functions of the graph -- the simulation contributes heap order (planarise), id offsets and interleaving only (weak claim)",
+                assumptions=["simple graphs up to 30 nodes (thorough: 60); an empty core is allowed when the input is a tree", "planarise: cycle-plus-chords graphs on a jittered grid routed by LeaflessOrthoRouter"]),
+    "C12": dict(build="plain", runs_quick=20000, budget_quick=45, runs_thorough=300000, budget_thorough=900,
+                rule="each evaluation is one simulated world: 1-2 hyperedge sessions (4-9 rectangles with centre and side pins, 1-2 hyperedges of 3..N terminals joined through 1-2 junctions at free points) "
+                     "executing histories of transactions with shape moves, junction moves, full rerouting registered by junction or by terminal list, with improveHyperedgeRoutesMovingJunctions or "
+                     "...AddingAndDeletingJunctions; the tree/terminal/attachment/route/reported-list oracles read the router's live objects after every transaction; heap placement decides the pointer-ordered "
+                     "terminal and junction sets; non-trivial = a reach probe fired; distinct = distinct event-log hash",
+                assumptions=["route ends compared as an unordered pair; a junction the improver moved counts at recommendedPosition()",
+                             "junctions in the reported deleted list are excluded until the following transaction (documented: freed at the router's convenience)"]),
     "C10": dict(build="plain", runs_quick=30000, budget_quick=45, runs_thorough=400000, budget_thorough=900,
                 rule=ROUTER_RULE + "; C10 scenes: grid of cells with one rectangle each (corridors 20-160 wide), 2-7 orthogonal connectors with free end points, nudging distance 2-10, all nudging option combinations, histories of moves and re-nudging",
                 assumptions=["overlap clause armed only if at least one of the two segments is interior and the free channel around its whole extent is >= (connectors+1) x nudging distance on both sides",
@@ -39,7 +56,7 @@ PROPS = {
     "C08": dict(build="plain", runs_quick=30000, budget_quick=40, runs_thorough=600000, budget_thorough=900, rule=LAYOUT_RULE,
                 assumptions=["armed after makeFeasible() followed by at least one completed iteration, nothing reported unsatisfiable",
                              "user constraints and clusters are generated from a non-overlapping witness grid"]),
-    "C15": dict(build="san", runs_quick=4000, budget_quick=50, runs_thorough=150000, budget_thorough=1200, rule=MIX_RULE, timeout_quick=60,
+    "C15": dict(build="san", also_build="plain", also_runs_quick=20000, also_budget_quick=25, also_runs_thorough=600000, also_budget_thorough=600, runs_quick=4000, budget_quick=40, runs_thorough=150000, budget_thorough=1200, rule=MIX_RULE, timeout_quick=60,
                 assumptions=["ASan+UBSan (recoverable) on all five libraries and the harness, LeakSanitizer check at the end of every run, library assertions as exceptions, watchdog",
                              "allocation failure is not injected (the property is about valid use)",
                              "only direct leaks are classified; leaks in a run in which the library threw an assertion are attributed to that assertion"]),
